@@ -353,8 +353,7 @@ inline Outcome isolate(const std::function<void(std::function<void(const std::st
 	else if(WEXITSTATUS(st) == 0) o.kind = Outcome::RETURNED;
 	else if(WEXITSTATUS(st) == 99 || WEXITSTATUS(st) == 98 || o.out.find("AddressSanitizer") != std::string::npos || o.out.find("runtime error:") != std::string::npos)
 		o.kind = Outcome::SANITIZER;
-	else if(WEXITSTATUS(st) == EXIT_FAILURE) o.kind = Outcome::EXIT_FAIL;
-	else o.kind = Outcome::EXIT_OTHER;
+	else o.kind = Outcome::EXIT_FAIL;	 // any non-zero status is a failure status (the value itself is not promised anywhere)
 	return o;
 }
 
